@@ -228,6 +228,77 @@ def rule_R4(ctx):
                       "R4", fn + ":observation", "version / horder / habsent / expsw(%s) routed" % sw, "observation fields are wired wrongly", ctx.loc(b, i))
 
 
+def rule_request_line_rejections(ctx):
+    """R1: a request line is refused for its length, its number of parts, its version or its method - never for what the request target
+    looks like (origin-form, absolute-form, authority-form `CONNECT host:443` and asterisk-form `OPTIONS *` are all request targets,
+    RFC 7230 5.3): every condition that decides an Err exit of parse_request_line is one of those four tests"""
+    from ..engine import paths as PA
+    P = ctx.program
+    b = P.method1("Http1Parser", "parse_request_line")
+    S = T.Slicer(b, P)
+    n = 0
+    odd = []
+    for (rb, j, term, _c) in TB.return_sites(b, P):
+        tt = T.strip(term)
+        if not ((tt[0] == "agg" and tt[3] == "Err") or (tt[0] == "call" and tt[1].endswith("::from_residual"))):
+            continue
+        n += 1
+        trails, trunc = PA.enumerate_paths(b, 0, 2000, stop={rb})
+        trails = [tr for tr in trails if tr[-1] == rb]
+        if trunc or not trails:
+            odd.append((rb, "paths not enumerable"))
+            continue
+        deciding = PA.deciding_blocks(b, S, rb, j if j >= 0 else None)
+        for tr in trails:
+            for c in [Q._norm_cmp(x) for x in PA.path_conds(P, b, S, tr) if x[-1] in deciding]:
+                txt = T.pp(c[1] if c[0] != "cmp" else c[2]) + (T.pp(c[3]) if c[0] == "cmp" else "")
+                if c[0] == "cmp" and (T.has_call(c[2], "::len") or T.has_call(c[3], "::len")):
+                    continue                                  # length cap / number of parts
+                if "Version" in txt or "version" in txt:
+                    continue                                  # version text not recognised / not 1.0 or 1.1
+                if "is_valid_method" in txt:
+                    continue
+                if c[0] in ("variant", "variant_in") and T.strip(c[1])[0] == "agg":
+                    continue                                  # a `?` on a value built just before
+                if c[0] == "bool" and T.strip(c[1])[0] == "const":
+                    continue
+                odd.append((rb, txt[:70]))
+    ctx.check(not odd, "R1", "parse_request_line:rejections", "%d Err exits, decided by length / part count / version / method only" % n,
+              "parse_request_line also rejects a request line on `%s`: well-formed requests whose target has another of the RFC 7230 forms are never reported"
+              % (odd[0][1] if odd else ""), ctx.loc(b, odd[0][0]) if odd else None)
+    ctx.floor("R1", "Err exits of parse_request_line", n, 4)
+
+
+def rule_q_default(ctx):
+    """R5: a language range without a `q` parameter has quality 1 (RFC 7231 5.3.1): wherever the parsed q-value may be absent, the value
+    used instead is the constant 1.0"""
+    import struct
+    P = ctx.program
+    b = P.body("huginn_net_http::http_languages::get_highest_quality_language")
+    from ..engine import lists as L
+    found = []
+    for cb in L.with_closures(P, b):
+        CS = T.Slicer(cb, P)
+        for blk, t in cb.calls():
+            last = callee_of(t).rsplit("::", 1)[-1]
+            if last not in ("unwrap_or", "unwrap_or_default", "unwrap_or_else", "map_or", "map_or_else") or "Option" not in callee_of(t):
+                continue
+            if not (cb.local_ty(t["dest"]["l"]) or "").startswith(("f32", "f64")):
+                continue
+            a = Q.call_args(cb, CS, blk, t)
+            d = T.strip(a[1]) if last in ("unwrap_or", "map_or") and len(a) > 1 else None
+            val = None
+            if d is not None and d[0] == "const" and isinstance(d[1], tuple) and d[1] and d[1][0] == "f":
+                val = struct.unpack("<f", struct.pack("<I", d[1][1]))[0] if d[1][2] == 4 else struct.unpack("<d", struct.pack("<Q", d[1][1]))[0]
+            found.append((cb, blk, last, val))
+    if not found:
+        ctx.cannot("R5", "language:q-default", "no defaulting of an absent q-value found", ctx.loc(b))
+    for (cb, blk, last, val) in found:
+        ctx.check(val == 1.0, "R5", "language:q-default", "absent q means 1.0",
+                  "a language range without `q` is given quality %s (%s): RFC 7231 says 1, so an unweighted range loses against any weighted one and the reported "
+                  "language changes" % (val if val is not None else "the type's default / a computed value", last), ctx.loc(cb, blk))
+
+
 def rule_R5(ctx):
     P = ctx.program
     b = P.body("huginn_net_http::http_languages::get_highest_quality_language")
@@ -563,12 +634,23 @@ def rule_rendering(ctx):
     C06.rule_R1_composite(R.Retag(ctx, "C06."))
 
 
+def rule_routing_ignores_body(ctx):
+    """the HTTP/1 gate `can_process_request` rejects HTTP/2 traffic with is_http2_traffic: that test looks at the start of the bytes only
+    (shared with C16.R4)"""
+    from ..engine import report as R
+    from . import C16
+    C16.rule_preface_is_prefix(R.Retag(ctx, "C16."))
+
+
 def run(ctx):
+    rule_routing_ignores_body(ctx)
     rule_rendering(ctx)
     rule_adapters_pass_buffer(ctx)
     rule_R1(ctx)
     rule_R2_R3(ctx)
     rule_R4(ctx)
+    rule_request_line_rejections(ctx)
+    rule_q_default(ctx)
     rule_R5(ctx)
     rule_R5b(ctx)
     rule_R6(ctx)
